@@ -12,7 +12,7 @@ for d in /verif/seeded/*/; do
   [ -n "$ONLY" ] && [[ ! " $ONLY " =~ " ${id%%-*} " ]] && continue
   (cd $WT && git checkout -q -- teaal && git apply $d/patch.diff) || { echo "$id: PATCH DOES NOT APPLY"; bad=$((bad+1)); continue; }
   for c in $checks; do
-    MC_REPO=$WT /verif/check $c > /tmp/wt/seedrun.log 2>&1; rc=$?
+    MC_REPO=$WT timeout 1500 /verif/check $c > /tmp/wt/seedrun.log 2>&1; rc=$?
     if [ $rc -eq 1 ]; then ok=$((ok+1)); echo "$id: $c detects it"; else bad=$((bad+1)); echo "$id: $c exit $rc  *** NOT DETECTED ***"; fi
   done
   (cd $WT && git checkout -q -- teaal)
